@@ -77,9 +77,43 @@ def escape_oracle(ctx):
     return texts
 
 
+def int_oracle(ctx):
+    """independent reading of "decimal/hex/octal/binary integers with digit separators": groups of digits joined by single
+    underscores denote the number spelled by the digits alone; one token spanning the whole literal, in three contexts"""
+    rng = ctx.rng
+    bases = [('', '0123456789', 10), ('0x', '0123456789abcdefABCDEF', 16), ('0o', '01234567', 8), ('0b', '01', 2)]
+    cases = []
+    for prefix, digs, base in bases:
+        for groups in (1, 2, 3, 4, 6):
+            for _ in range(ctx.budget(12, 120)):
+                gs = [''.join(rng.choice(digs) for _ in range(rng.randint(1, 4))) for _ in range(groups)]
+                if prefix == '' and gs[0][0] == '0' and (len(gs[0]) > 1 or groups > 1): gs[0] = rng.choice('123456789') + gs[0][1:]
+                cases.append((prefix + '_'.join(gs), int(''.join(gs), base)))
+    cases += [('1_000', 1000), ('1_000_000', 1000000), ('1_2_3_4', 1234), ('0x_ff', None), ('0b1111_0000_1010', 0xf0a), ('0', 0), ('0_0', None)]
+    texts, bad, n = [], 0, 0
+    for text, val in cases:
+        if val is None: continue
+        for pre, post in (('', ''), ('x=', ';'), ('(', ')')):
+            n += 1
+            t = pre + text + post
+            texts.append(t)
+            got = frontend.py_lex(t)
+            want = '0:%d-0:%d int %d' % (len(pre), len(pre) + len(text), val)
+            if want not in got:
+                bad += 1
+                if bad <= 3:
+                    ctx.violations.append(dict(what='integer literal %s does not denote its documented value %d as one token: lexer gave %r' % (text, val, got[:4]),
+                                               kind='INTLIT', source=t, args=[], config={}))
+    ctx.stats['int_oracle'] = dict(cases=n, failures=bad)
+    ctx.say('integer literal oracle: %d literal forms, %d failures' % (n, bad))
+    return texts
+
+
 def run(ctx):
     esc_texts = escape_oracle(ctx)
+    int_texts = int_oracle(ctx)
     extra = esc_texts if ctx.tier == 'thorough' else ctx.rng.sample(esc_texts, 1500)
+    extra += int_texts if ctx.tier == 'thorough' else ctx.rng.sample(int_texts, min(len(int_texts), 300))
     extra += [open(f, encoding='utf-8').read() for f in sorted(glob.glob(os.path.join(hidlib.REPO, 'examples', '*.hid')))]
     extra += ['', '\n', ' ', '//', 'a//b\nc', '1__2', '0x', '0x_1', "''", "'", '"', '"\\', '@', '!', '!=', '! x', '@if', '09_', '0b12', '0o8',
               '١٢_٣', '"\\u{110000}"', '"\\u{D800}"', "'é'", "'\\xff'", 'x.length', 'a<=b', 'a< =b', 'a??b', 'a? ?b']
